@@ -175,6 +175,7 @@ def run(F, R, tier):
 
     # ---------------- C17-c ------------------------------------------------
     c01.is_dynamic_writes(F, R, tag="C17-c")
+    c01.type_writes_gated(F, R, tag="C17-c")
 
     # ---------------- C17-d ------------------------------------------------
     mg = F.adt("graph::ModuleGraph")
